@@ -132,6 +132,12 @@ def run(tier):
                 spots = [i for i in range(len(w) + 1) if (i == 0 or w[i - 1] == 'NL') and (i == len(w) or w[i] == 'NL')]
                 if spots:
                     w.insert(rng.choice(spots), 'BL')
+            elif r < 0.44:
+                # a quoted literal of the got written with a string prefix, coloured: prefix letter and colour code next to each other
+                spots = [i for i in range(len(w)) if w[i] in ('SQ', 'DQ')]
+                if spots:
+                    i = rng.choice(spots)
+                    w[i:i] = rng.choice([['ANSI', 'B'], ['ANSI', 'U'], ['B', 'ANSI'], ['U'], ['B'], ['ANSI']])
             elif r < 0.5:
                 w.insert(rng.randrange(len(w) + 1), rng.choice(['SP', 'TAB', 'NL', 'BL', 'ANSI', 'SQ', 'DQ', 'U', 'B', 'CR']))
             elif r < 0.65 and w:
